@@ -743,6 +743,32 @@ theorem C05_inbreeding_vs_direct (het : String) (ns : List ℕ) (grids : List (A
   rw [e1, e2, e3, e4] at h
   exact h
 
+/-- the same bound for **the arrays the two entry points return** (what the driver computes): `from_phi_inbreeding` (not
+    delegated) against `from_phi(force_direct=True)` on the same density array `T` -/
+theorem C05_inbreeding_vs_direct_arrays (het : String) (ns : List ℕ) (grids : List (Array ℚ)) (Fs : List ℚ) (pls : List ℕ)
+    (hd1 : 1 ≤ grids.length) (hd : grids.length ≤ 3)
+    (hg : ∀ a, a < grids.length → UnitGrid (grids.getD a #[]))
+    (hF : ∀ a, a < grids.length → 0 ≤ Fs.getD a 0)
+    (hP : ∀ a, a < grids.length → 0 < pls.getD a 1 ∧ pls.getD a 1 ∣ ns.getD a 0) (T : ND)
+    (hT : T.shape = (List.range grids.length).map fun a => (grids.getD a #[]).size) (idx : List ℕ)
+    (hidx : InBox ((List.range grids.length).map fun a => ns.getD a 0 + 1) idx) :
+    |(sampleFast (inbOpsFast het ns grids Fs pls) T).get idx - (sampleFast (directOpsFast het ns grids) T).get idx|
+      ≤ ((List.range grids.length).map fun a =>
+            inbAxisEps (ns.getD a 0 / pls.getD a 1) (pls.getD a 1) (ns.getD a 0) (inbFClamp (Fs.getD a 0))).sum
+        * wSum ((List.range grids.length).map fun a =>
+            ((grids.getD a #[]).size, tw (grids.getD a #[]).size (gridFn (grids.getD a #[])))) (fun js => |T.get js|) := by
+  have e1 : (inbOps het ns grids Fs pls).map (·.nIn) = (List.range grids.length).map fun a => (grids.getD a #[]).size := by
+    simp [inbOps, inbOp, List.map_map, Function.comp_def]
+  have e2 : (directOps het ns grids).map (·.nIn) = (List.range grids.length).map fun a => (grids.getD a #[]).size := by
+    simp [directOps, directOp, List.map_map, Function.comp_def]
+  have e3 : (inbOps het ns grids Fs pls).map (·.nOut) = (List.range grids.length).map fun a => ns.getD a 0 + 1 := by
+    simp [inbOps, inbOp, List.map_map, Function.comp_def]
+  have e4 : (directOps het ns grids).map (·.nOut) = (List.range grids.length).map fun a => ns.getD a 0 + 1 := by
+    simp [directOps, directOp, List.map_map, Function.comp_def]
+  rw [C05_fast_inbreeding het ns grids Fs pls T (by rw [e1]; exact hT) idx (by rw [e3]; exact hidx),
+    C05_fast_direct het ns grids T (by rw [e2]; exact hT) idx (by rw [e4]; exact hidx)]
+  exact C05_inbreeding_vs_direct het ns grids Fs pls hd1 hd hg hF hP T.get idx
+
 /-- the hypotheses of `C05_inbreeding_vs_direct` are satisfiable: a diploid with F = 0 next to a tetraploid with F = 1/10 -/
 example : UnitGrid #[0, 1/2, 1] ∧ (0 : ℚ) ≤ ([0, 1/10] : List ℚ).getD 1 0
     ∧ (0 < ([2, 4] : List ℕ).getD 1 1 ∧ ([2, 4] : List ℕ).getD 1 1 ∣ ([4, 8] : List ℕ).getD 1 0) := by
@@ -751,7 +777,9 @@ example : UnitGrid #[0, 1/2, 1] ∧ (0 : ℚ) ≤ ([0, 1/10] : List ℚ).getD 1 
   have hk' : k = 0 ∨ k = 1 := by
     have : k + 1 < 3 := hk
     omega
-  rcases hk' with rfl | rfl <;> simp [gridFn] <;> norm_num
+  rcases hk' with rfl | rfl
+  · simp [gridFn]
+  · simp [gridFn]; norm_num
 
 /-- **all F = 0 without the delegation**: had `from_phi_inbreeding` not handed the call over, its own functions would return
     exactly the direct-path spectrum — the delegation changes nothing but the route (and the bound above is 0) -/
@@ -902,6 +930,32 @@ theorem C05_direct_vs_analytic_ND (ns : List ℕ) (grids : List (Array ℚ)) (hs
   have h := sampleND_sub_le_abs L hL φ idx (by rw [e1]; exact hidx)
   rw [e1, e2, e3, e4] at h
   exact h
+
+/-- the same for **the arrays the two private functions return** (`_from_phi_{d}D_linalg` against `_from_phi_{d}D_direct`, what the
+    driver computes) on the same density array `T` -/
+theorem C05_direct_vs_analytic_arrays (ns : List ℕ) (grids : List (Array ℚ)) (hs : List ℚ) (hd1 : 1 ≤ grids.length) (hd : grids.length ≤ 4)
+    (hg : ∀ a, a < grids.length →
+      (∀ k, clamp (gridFn (grids.getD a #[]) k) = gridFn (grids.getD a #[]) k)
+      ∧ (∀ k, k + 1 < (grids.getD a #[]).size → gridFn (grids.getD a #[]) k < gridFn (grids.getD a #[]) (k+1))
+      ∧ (∀ k, k + 1 < (grids.getD a #[]).size → gridFn (grids.getD a #[]) (k+1) - gridFn (grids.getD a #[]) k ≤ hs.getD a 0)
+      ∧ 0 ≤ hs.getD a 0)
+    (T : ND) (hT : T.shape = (List.range grids.length).map fun a => (grids.getD a #[]).size) (idx : List ℕ)
+    (hidx : InBox ((List.range grids.length).map fun a => ns.getD a 0 + 1) idx) :
+    |(sampleFast (linalgOpsFast ns grids) T).get idx - (sampleFast (directOpsFast "" ns grids) T).get idx|
+      ≤ dvaErr ((List.range grids.length).map fun a => dvaEps (ns.getD a 0) (hs.getD a 0))
+        * wSum ((List.range grids.length).map fun a =>
+            ((grids.getD a #[]).size, tw (grids.getD a #[]).size (gridFn (grids.getD a #[])))) (fun js => |T.get js|) := by
+  have e1 : (linalgOps ns grids).map (·.nIn) = (List.range grids.length).map fun a => (grids.getD a #[]).size := by
+    simp [linalgOps, analyticOp, List.map_map, Function.comp_def]
+  have e2 : (directOps "" ns grids).map (·.nIn) = (List.range grids.length).map fun a => (grids.getD a #[]).size := by
+    simp [directOps, directOp, List.map_map, Function.comp_def]
+  have e3 : (linalgOps ns grids).map (·.nOut) = (List.range grids.length).map fun a => ns.getD a 0 + 1 := by
+    simp [linalgOps, analyticOp, List.map_map, Function.comp_def]
+  have e4 : (directOps "" ns grids).map (·.nOut) = (List.range grids.length).map fun a => ns.getD a 0 + 1 := by
+    simp [directOps, directOp, List.map_map, Function.comp_def]
+  rw [C05_fast_linalg ns grids (by omega) T (by rw [e1]; exact hT) idx (by rw [e3]; exact hidx),
+    C05_fast_direct "" ns grids T (by rw [e2]; exact hT) idx (by rw [e4]; exact hidx)]
+  exact C05_direct_vs_analytic_ND ns grids hs hd1 hd hg T.get idx (by rw [e3]; exact hidx)
 
 /-! ## Round 5 — over-shooting grids in d ≥ 2 (`cached_dbeta` clamps a copy, slopes read the caller's grid) -/
 
